@@ -526,7 +526,7 @@ def gen_model(r, ndates=4, polset=None, size=None, opts=None):
             if gw and r.random() < 0.5 and not any(n["name"] == gw and n.get("node_type_override") == "QueueGroundwater" for n in g.nodes):
                 g.arc(gw, sws[0])
         # an abstraction from the aquifer (a stream of its own: the models of earlier generator versions stay as they were)
-        rx = random.Random(str(r.getstate()[1][:4]))
+        rx = random.Random(str(r.getstate()[1][:4]) + str(len(g.nodes)) + str(len(g.arcs)))
         if rx.random() < 0.4 and not opts.get("no_gw_abstraction"):
             fws = [n["name"] for n in g.nodes if n["type_"] == "FWTW"]
             gwd = next(n for n in g.nodes if n["name"] == gw)
@@ -536,9 +536,10 @@ def gen_model(r, ndates=4, polset=None, size=None, opts=None):
                 gwd["timearea"] = rx.choice([{0: F(1, 2), 1: F(1, 2)}, {0: F(1, 4), 1: F(1, 2), 2: F(1, 4)}, {1: F(1)}])
                 adds, _ = g.pols()
                 if adds and "decays" not in gwd and rx.random() < 0.6:
-                    gwd["decays"] = {p_: {"constant": rx.choice([F(1, 100), F(1, 2), F(3, 2)]), "exponent": rx.choice([F(1), F(1001, 1000), F(2)])}
+                    rq = random.Random(rx.random())          # (pollutant choices must not advance the hydraulic stream)
+                    gwd["decays"] = {p_: {"constant": rq.choice([F(1, 100), F(1, 2), F(3, 2)]), "exponent": rq.choice([F(1), F(1001, 1000), F(2)])}
                                      for p_ in adds[:2]}
-                    gwd["data_input_dict"] = g.data({"temperature": [temp(rx) for _ in range(g.n)]})
+                    gwd["data_input_dict"] = g.data({"temperature": [temp(rq) for _ in range(g.n)]})
             if fws and rx.random() < 0.7:
                 g.arc(gw, fws[0], type_="PullArc")
             else:
